@@ -524,4 +524,269 @@ theorem compact_inv : ∀ (plan : List (Nat × List Nat)) (s : Store), Inv s →
     | none => exact compact_inv plan s inv
     | some d => exact compact_inv plan _ (compactTable_inv s inv tid d sel hl)
 
+/-! ### CREATE TABLE keeps the invariant -/
+
+theorem add_spec (c : Catalog) (n : String) (k : Kind) (id : Nat) (c' : Catalog) (h : c.add n k = some (id, c')) :
+    c.find? n = none ∧ id = c.nextId ∧
+      c' = { c with nextId := c.nextId + 1, entries := c.entries ++ [⟨c.nextId, n, k⟩] } := by
+  unfold Catalog.add at h
+  split at h
+  · simp at h
+  · rename_i hf
+    simp at h
+    refine ⟨?_, h.1.symm, h.2.symm⟩
+    cases hc : c.find? n with
+    | none => rfl
+    | some e => simp [hc] at hf
+
+theorem find?_none_names (c : Catalog) (n : String) (h : c.find? n = none) : n ∉ c.entries.map (·.name) := by
+  intro hm
+  obtain ⟨e, he, rfl⟩ := List.mem_map.mp hm
+  simp only [Catalog.find?] at h
+  have := List.find?_eq_none.mp h e he
+  simp at this
+
+theorem createTable_fields (s : Store) (d : TableDef) (id : Nat) (c' : Catalog) (h : s.cat.add d.name .table = some (id, c')) :
+    let s' := (s.createTable d).1
+    s'.cat = c' ∧ s'.tables = s.tables ++ [(id, d)] ∧ s'.rowsets = s.rowsets ∧ s'.dvs = s.dvs ∧ s'.pending = s.pending ∧
+    s'.nextRs = s.nextRs ∧ s'.nextDv = s.nextDv ∧ s'.dirs = s.dirs ∧ s'.dvFiles = s.dvFiles ∧
+    s'.manifest = s.manifest ++ txn [Rec.createTable d] ∧ (s.createTable d).2 = .ok 1 := by
+  simp only [Store.createTable, h, Store.commit]
+  simp
+
+theorem createTable_inv (s : Store) (inv : Inv s) (d : TableDef) (id : Nat) (c' : Catalog)
+    (h : s.cat.add d.name .table = some (id, c')) : Inv (s.createTable d).1 := by
+  obtain ⟨f1, f2, f3, f4, f5, f6, f7, f8, f9, f10, _⟩ := createTable_fields s d id c' h
+  obtain ⟨a1, a2, a3⟩ := add_spec _ _ _ _ _ h
+  subst a2
+  have hnm : ∀ r ∈ [Rec.createTable d], r.isMark = false := by intro r hr; simp at hr; subst hr; rfl
+  obtain ⟨c1, c2⟩ := sync_commit s.manifest _ inv.sync.closed hnm
+  have hstep : (bootFold (replay s.manifest)).step (Rec.createTable d) =
+      { bootFold (replay s.manifest) with
+        cat := c'
+        tables := s.tables ++ [(s.cat.nextId, d)]
+        tableOps := (bootFold (replay s.manifest)).tableOps ++ [Rec.createTable d] } := by
+    unfold Boot.step
+    simp only [inv.sync.ok, Option.isSome_none, Bool.false_eq_true, if_false, inv.sync.cat, h, inv.sync.tables]
+  simp only [List.foldl_cons, List.foldl_nil, hstep] at c2
+  rw [← f10] at c1 c2
+  have hlk : ∀ t, (lookup t s.tables).isSome → (lookup t (s.tables ++ [(s.cat.nextId, d)])).isSome := by
+    intro t ht; rw [lookup_append_isSome _ _ _ ht]; exact ht
+  refine ⟨⟨by rw [f8, f6]; exact inv.wf.dirs, by rw [f3, f6]; exact inv.wf.rs, by rw [f4, f6]; exact inv.wf.dv,
+      by rw [f5, f3, f6]; exact inv.wf.pend⟩,
+    Sync.mk' c2 c1 inv.sync.ok f1.symm f2.symm (by rw [f3]; exact inv.sync.rs) (by rw [f4]; exact inv.sync.dv),
+    by rw [f3, f8]; exact inv.dirs, by rw [f4, f9]; exact inv.dvFiles, ?_, by rw [f4, f7]; exact inv.dvIds,
+    ?_, ?_, ?_, ?_, ?_, ?_, ?_, ?_⟩
+  · intro x hx hl
+    rw [f9] at hx; rw [f2] at hl; rw [f4]
+    apply inv.dvFilesLive x hx
+    rw [lookup_append] at hl
+    cases hl0 : lookup x.1.1 s.tables with
+    | some v => rfl
+    | none =>
+      rw [hl0] at hl
+      have := inv.dvFileTid x hx
+      simp [lookup] at hl
+      omega
+  · rw [f1, a3]
+    intro e he
+    simp only at he ⊢
+    rcases List.mem_append.mp he with he | he
+    · have := inv.catIds e he; exact ⟨by omega, this.2⟩
+    · simp at he; subst he; exact ⟨by simp, rfl⟩
+  · rw [f1, a3]
+    simp only [List.map_append, List.map_cons, List.map_nil]
+    rw [List.nodup_append]
+    refine ⟨inv.idsNodup, by simp, ?_⟩
+    intro a ha b hb hab
+    simp at hb; subst hb; subst hab
+    obtain ⟨e, he, hid⟩ := List.mem_map.mp ha
+    have := (inv.catIds e he).1
+    omega
+  · rw [f1, a3]
+    simp only [List.map_append, List.map_cons, List.map_nil]
+    rw [List.nodup_append]
+    refine ⟨inv.namesNodup, by simp, ?_⟩
+    intro a ha b hb hab
+    simp at hb; subst hb; subst hab
+    exact find?_none_names _ _ a1 ha
+  · rw [f1, a3, f2]
+    intro e he
+    simp only at he
+    rcases List.mem_append.mp he with he | he
+    · exact hlk _ (inv.catTab e he)
+    · simp at he; subst he
+      simp only
+      rw [lookup_append]
+      cases lookup s.cat.nextId s.tables with
+      | some v => rfl
+      | none => simp [lookup]
+  · rw [f1, a3, f2]
+    intro x hx
+    simp only
+    rcases List.mem_append.mp hx with hx | hx
+    · have := inv.tabIds x hx; omega
+    · simp at hx; subst hx; simp
+  · rw [f3, f2]; exact fun k hk => hlk _ (inv.rsTables k hk)
+  · rw [f4, f2]; exact fun e he => hlk _ (inv.dvTables e he)
+  · rw [f1, a3, f9]
+    intro x hx
+    have := inv.dvFileTid x hx
+    simp only; omega
+
+/-! ### DROP TABLE keeps the invariant -/
+
+def dropRecs (s : Store) (tid : Nat) : List Rec :=
+  (s.rowsetsOf tid).flatMap fun rs =>
+    Rec.delRowSet tid rs :: ((s.dvs.filter fun x => x.tid == tid && x.rs == rs).map fun x => Rec.delDV tid rs x.dv)
+
+theorem drop_fields (s : Store) (n : String) (e0 : CatEntry) (h : s.cat.find? n = some e0) (hk : e0.kind = .table) :
+    let s' := (s.drop n).1
+    let tid := e0.id
+    s'.cat = s.cat.remove tid ∧ s'.tables = s.tables.filter (·.1 != tid) ∧
+    s'.rowsets = s.rowsets.filter (·.1 != tid) ∧
+    s'.dvs = s.dvs.filter (fun x => !(x.tid == tid && (s.rowsetsOf tid).contains x.rs)) ∧
+    s'.pending = s.pending ++ (s.rowsetsOf tid).map (fun rs => (tid, rs)) ∧
+    s'.nextRs = s.nextRs ∧ s'.nextDv = s.nextDv ∧ s'.dirs = s.dirs ∧ s'.dvFiles = s.dvFiles ∧
+    s'.manifest = s.manifest ++ txn (Rec.dropTable tid :: dropRecs s tid) ∧ (s.drop n).2 = .ok 1 := by
+  simp only [Store.drop, h, hk, Store.commit, dropRecs]
+  simp
+
+theorem mem_dropRecs_rs (s : Store) (tid a b : Nat) :
+    Rec.delRowSet a b ∈ dropRecs s tid ↔ a = tid ∧ b ∈ s.rowsetsOf tid := by
+  simp only [dropRecs, List.mem_flatMap, List.mem_cons, List.mem_map]
+  constructor
+  · rintro ⟨rs, hrs, h | ⟨x, _, hx⟩⟩
+    · simp at h; exact ⟨h.1, h.2 ▸ hrs⟩
+    · simp at hx
+  · rintro ⟨rfl, hb⟩
+    exact ⟨b, hb, Or.inl rfl⟩
+
+theorem mem_dropRecs_dv (s : Store) (tid : Nat) (x : DvE) (hx : x ∈ s.dvs) :
+    Rec.delDV x.tid x.rs x.dv ∈ dropRecs s tid ↔ x.tid = tid ∧ x.rs ∈ s.rowsetsOf tid := by
+  simp only [dropRecs, List.mem_flatMap, List.mem_cons, List.mem_map, List.mem_filter]
+  constructor
+  · rintro ⟨rs, hrs, h | ⟨y, _, hy⟩⟩
+    · simp at h
+    · simp at hy; exact ⟨hy.1.symm, hy.2.1 ▸ hrs⟩
+  · rintro ⟨h1, h2⟩
+    exact ⟨x.rs, h2, Or.inr ⟨x, ⟨hx, by simp [h1]⟩, by simp [h1]⟩⟩
+
+theorem lookup_filter_ne {β} (tid : Nat) : ∀ l : List (Nat × β), lookup tid (l.filter (·.1 != tid)) = none
+  | [] => rfl
+  | (a, b) :: l => by
+    rw [List.filter_cons]
+    by_cases h : a = tid
+    · subst h; simp [lookup_filter_ne a l]
+    · have : (a == tid) = false := by simpa using h
+      simp [h, lookup, this, lookup_filter_ne tid l]
+
+theorem drop_inv (s : Store) (inv : Inv s) (n : String) (e0 : CatEntry) (h : s.cat.find? n = some e0)
+    (guard : ∀ e ∈ s.dvs, e.tid = e0.id → (e0.id, e.rs) ∈ s.rowsets) : Inv (s.drop n).1 := by
+  have he0 : e0 ∈ s.cat.entries := List.mem_of_find?_eq_some h
+  have hk : e0.kind = .table := (inv.catIds e0 he0).2
+  obtain ⟨f1, f2, f3, f4, f5, f6, f7, f8, f9, f10, _⟩ := drop_fields s n e0 h hk
+  generalize htid : e0.id = tid at *
+  have hrecsDel : ∀ r ∈ dropRecs s tid, r.isDel = true := by
+    intro r hr
+    simp only [dropRecs, List.mem_flatMap, List.mem_cons, List.mem_map] at hr
+    obtain ⟨rs, _, rfl | ⟨x, _, rfl⟩⟩ := hr <;> rfl
+  have hnm : ∀ r ∈ (Rec.dropTable tid :: dropRecs s tid), r.isMark = false := by
+    intro r hr
+    cases hr with
+    | head => rfl
+    | tail _ hr => have := hrecsDel r hr; cases r <;> simp_all [Rec.isDel, Rec.isMark]
+  obtain ⟨c1, c2⟩ := sync_commit s.manifest _ inv.sync.closed hnm
+  have htab : (lookup tid s.tables).isSome := by rw [← htid]; exact inv.catTab e0 he0
+  have hstep : (bootFold (replay s.manifest)).step (Rec.dropTable tid) =
+      { bootFold (replay s.manifest) with
+        cat := s.cat.remove tid
+        tables := s.tables.filter (·.1 != tid)
+        tableOps := (bootFold (replay s.manifest)).tableOps ++ [Rec.dropTable tid] } := by
+    unfold Boot.step
+    simp only [inv.sync.ok, Option.isSome_none, Bool.false_eq_true, if_false, inv.sync.cat, inv.sync.tables, htab, if_true]
+  rw [List.foldl_cons, hstep] at c2
+  have hD := foldl_dels (dropRecs s tid) _ hrecsDel (show ({ bootFold (replay s.manifest) with
+        cat := s.cat.remove tid
+        tables := s.tables.filter (·.1 != tid)
+        tableOps := (bootFold (replay s.manifest)).tableOps ++ [Rec.dropTable tid] } : Boot).failed = none from inv.sync.ok)
+  simp only [Boot.tabPart, Prod.mk.injEq] at hD
+  rw [← f10] at c1 c2
+  have hkeep : ∀ k ∈ s.rowsets.filter (·.1 != tid), k ∈ s.rowsets ∧ k.1 ≠ tid := by
+    intro k hk; have := List.mem_filter.mp hk; exact ⟨this.1, by simpa using this.2⟩
+  have hdvkeep : ∀ e ∈ s.dvs.filter (fun x => !(x.tid == tid && (s.rowsetsOf tid).contains x.rs)), e ∈ s.dvs ∧ e.tid ≠ tid := by
+    intro e he
+    have := List.mem_filter.mp he
+    refine ⟨this.1, ?_⟩
+    intro ht
+    have hg := guard e this.1 ht
+    have : (s.rowsetsOf tid).contains e.rs = true := by simpa using mem_rowsetsOf.mpr hg
+    have h2 := (List.mem_filter.mp he).2
+    rw [ht, this] at h2
+    simp at h2
+  refine ⟨⟨by rw [f8, f6]; exact inv.wf.dirs, ?_, ?_, ?_⟩,
+    Sync.mk' c2 c1 (by rw [hD.1.2.2.2]; exact inv.sync.ok) (by rw [hD.1.1, f1]) (by rw [hD.1.2.1, f2]) ?_ ?_,
+    ?_, ?_, ?_, ?_, ?_, ?_, ?_, ?_, ?_, ?_, ?_, ?_⟩
+  · rw [f3, f6]; exact fun k hk => inv.wf.rs k (hkeep k hk).1
+  · rw [f4, f6]; exact fun e he => inv.wf.dv e (hdvkeep e he).1
+  · rw [f5, f3, f6]
+    intro k hk
+    rcases List.mem_append.mp hk with hk | hk
+    · have := inv.wf.pend k hk
+      exact ⟨fun hm => this.1 (hkeep k hm).1, this.2⟩
+    · obtain ⟨rs, hrs, rfl⟩ := List.mem_map.mp hk
+      exact ⟨fun hm => (hkeep _ hm).2 rfl, inv.wf.rs _ (mem_rowsetsOf.mp hrs)⟩
+  · rw [hD.2.1, f3]
+    show List.filter _ (bootFold (replay s.manifest)).rsOpen = _
+    rw [inv.sync.rs]
+    apply List.filter_congr
+    intro k hk
+    rw [Bool.eq_iff_iff]
+    simp only [Bool.not_eq_true', List.contains_eq_mem, decide_eq_false_iff_not, mem_dropRecs_rs, bne_iff_ne, ne_eq]
+    constructor
+    · intro h1 h2; exact h1 ⟨h2, mem_rowsetsOf.mpr (by rw [← h2]; exact hk)⟩
+    · intro h1 h2; exact h1 h2.1
+  · rw [hD.2.2, f4]
+    show List.filter _ (bootFold (replay s.manifest)).dvOpen = _
+    rw [inv.sync.dv, List.filter_map]
+    congr 1
+    apply List.filter_congr
+    intro x hx
+    rw [Bool.eq_iff_iff]
+    simp only [Function.comp, DvE.key, Bool.not_eq_true', List.contains_eq_mem, decide_eq_false_iff_not,
+      mem_dropRecs_dv s tid x hx, Bool.and_eq_true, beq_iff_eq, decide_eq_true_eq]
+    simp
+  · rw [f3, f8]; exact fun k hk => inv.dirs k (hkeep k hk).1
+  · rw [f4, f9]; exact fun e he => inv.dvFiles e (hdvkeep e he).1
+  · intro x hx hl
+    rw [f9] at hx; rw [f2] at hl; rw [f4]
+    have hne : x.1.1 ≠ tid := by
+      intro heq; rw [heq, lookup_filter_ne] at hl; simp at hl
+    have hl' : (lookup x.1.1 s.tables).isSome := by
+      rwa [lookup_filter (fun a => a != tid) x.1.1 (by simpa using hne)] at hl
+    obtain ⟨e, he, hke⟩ := List.mem_map.mp (inv.dvFilesLive x hx hl')
+    refine List.mem_map.mpr ⟨e, List.mem_filter.mpr ⟨he, ?_⟩, hke⟩
+    have : e.tid ≠ tid := by rw [← hke] at hne; simpa [DvE.key] using hne
+    simp [this]
+  · rw [f4, f7]; exact fun e he => inv.dvIds e (hdvkeep e he).1
+  · rw [f1]; exact fun e he => inv.catIds e (List.mem_filter.mp he).1
+  · rw [f1]; exact inv.idsNodup.sublist ((List.filter_sublist).map _)
+  · rw [f1]; exact inv.namesNodup.sublist ((List.filter_sublist).map _)
+  · rw [f1, f2]
+    intro e he
+    have := List.mem_filter.mp he
+    have hne : e.id ≠ tid := by simpa using this.2
+    rw [lookup_filter (fun a => a != tid) e.id (by simpa using hne)]
+    exact inv.catTab e this.1
+  · rw [f1, f2]; exact fun x hx => inv.tabIds x (List.mem_filter.mp hx).1
+  · rw [f3, f2]
+    intro k hk
+    rw [lookup_filter (fun a => a != tid) k.1 (by simpa using (hkeep k hk).2)]
+    exact inv.rsTables k (hkeep k hk).1
+  · rw [f4, f2]
+    intro e he
+    rw [lookup_filter (fun a => a != tid) e.tid (by simpa using (hdvkeep e he).2)]
+    exact inv.dvTables e (hdvkeep e he).1
+  · rw [f1, f9]; exact inv.dvFileTid
+
 end RlModel
